@@ -327,10 +327,15 @@ def _case(seed: int) -> Dict[str, Any]:
                 need = [s_ for s_ in all_streams if len(dev[dev["stream"] == s_]) >= 2]
                 if any(s_ not in reported for s_ in need):
                     fails.append({"what": "every_stream_of_the_rank_is_reported", "input": inp, "observed": {"rank": rk, "streams": reported}, "expected": {"streams_with_at_least_two_kernels": need}})
-            ts_of = {int(i): int(t) for i, t in zip(df["index"], df["ts"])}
+            # the launch call of a device activity is the host event carrying the same correlation id IN THE FILE (the correlation column is the file's value);
+            # the link column the loader computed is what is being relied upon by the library, so it is not used here
+            host_ts_of_corr: Dict[int, int] = {}
+            for c_, t_, s_ in zip(df["correlation"], df["ts"], df["stream"]):
+                if int(s_) == -1 and int(c_) >= 0 and int(c_) not in host_ts_of_corr:
+                    host_ts_of_corr[int(c_)] = int(t_)
             for s in (subset or all_streams):
                 ks = dev[dev["stream"] == s].sort_values("ts", kind="stable")
-                rows = [(int(a), int(b), int(c)) for a, b, c in zip(ks["ts"], ks["dur"], ks["index_correlation"])]
+                rows = [(int(a), int(b), int(c)) for a, b, c in zip(ks["ts"], ks["dur"], ks["correlation"])]
                 exp = {"host_wait": 0, "kernel_wait": 0, "other": 0}
                 seen = set()
                 ok_order = all(rows[i][0] + rows[i][1] <= rows[i + 1][0] for i in range(len(rows) - 1))
@@ -338,7 +343,7 @@ def _case(seed: int) -> Dict[str, Any]:
                     continue  # precondition: kernels of a stream do not overlap (ties in ts make the order ambiguous)
                 for (t0, d0, _), (t1, d1, ic) in zip(rows, rows[1:]):
                     gap = t1 - (t0 + d0)
-                    launch = ts_of.get(ic) if ic > 0 else None
+                    launch = host_ts_of_corr.get(ic) if ic >= 0 else None
                     if launch is not None and launch > t0 + d0:
                         exp["host_wait"] += gap
                         seen.add("host_wait")
